@@ -27,6 +27,23 @@ Theorem C13_unmarshal_marshal :
 Proof. exact unmarshal_marshal. Qed.
 Print Assumptions C13_unmarshal_marshal.
 
+(* NO SIZE HYPOTHESIS: the round trip holds for every well-formed constant whose encoding fits
+   in one Go allocation (fits k: 48 * encoded bytes + 66048 <= 2^48, the allocator's own limit).
+   No bound on opcodes, lines, constants, nested functions, depth or string lengths, and nothing
+   depends on maxEagerRead: the proof covers both branches of readBytes (eager make + ReadFull
+   up to 64 KiB, io.CopyN beyond). *)
+Theorem C13_unmarshal_marshal_any_size :
+  forall k rest, wf k -> fits k -> unmarshal maxAlloc 0 (marshal k ++ rest) = UOk k rest 0.
+Proof. exact unmarshal_marshal_any_size. Qed.
+Print Assumptions C13_unmarshal_marshal_any_size.
+
+(* an instance beyond every size threshold: 16385 opcodes and lines (65540 bytes each), a
+   65537-byte string constant, 201 sibling functions *)
+Theorem C13_big_instance :
+  unmarshal maxAlloc 0 (marshal ex_big ++ [1; 2; 3]) = UOk ex_big [1; 2; 3] 0.
+Proof. exact ex_big_roundtrip. Qed.
+Print Assumptions C13_big_instance.
+
 (* the hypotheses are satisfiable *)
 Theorem C13_wf_example : wf ex_code /\ fits ex_code.
 Proof. exact ex_code_wf. Qed.
